@@ -44,7 +44,7 @@ class Path:
 
 
 class State:
-    __slots__ = ("store", "variants", "events", "facts", "ids", "epoch", "member", "visits", "steps", "lenver", "moved", "slack", "lencount", "subs", "empty", "sumge")
+    __slots__ = ("store", "variants", "events", "facts", "ids", "epoch", "member", "visits", "steps", "lenver", "moved", "slack", "lencount", "subs", "empty", "sumge", "roomx")
 
     def __init__(self):
         self.store = {}
@@ -63,6 +63,7 @@ class State:
         self.subs = {}
         self.empty = {}
         self.sumge = {}
+        self.roomx = {}
 
     def fork(self):
         s = State.__new__(State)
@@ -82,6 +83,7 @@ class State:
         s.subs = dict(self.subs)
         s.empty = dict(self.empty)
         s.sumge = dict(self.sumge)
+        s.roomx = dict(self.roomx)
         return s
 
     def fresh(self):
@@ -656,6 +658,7 @@ class Interp:
                 tr = self.models._truth(outcome)
                 if tr is not None:
                     self.models.note_sum_fact(self, s2, c, tr)
+                    self.models.note_room_fact(self, s2, c, tr)
                     if self.models.note_empty_fact(self, s2, c, tr):
                         continue   # infeasible: every resident list empty although their sum is >= size >= 1
             elif decided_by_model:
@@ -882,6 +885,39 @@ class Models:
     # names of the RawLRU fields of composite caches whose capacity equals the cache's resident bound `size`
     # (filled in by rules/lib/composite.py from the constructors; empty = no room reasoning)
     resident_bound_fields = frozenset()
+    # scalar fields of a composite that hold the same value as the cap of one of its lists, e.g. protected_size -> protected
+    # (filled in by rules/lib/composite.py from the constructors)
+    cap_alias = {}
+
+    def _len_vs_cap(self, a, b, op):
+        """(Xmap, op-with-len-on-the-left, len-version) if the comparison relates len(X) to cap(X) (directly or through an alias field)"""
+        flip = {"Lt": "Gt", "Gt": "Lt", "Le": "Ge", "Ge": "Le"}
+        for x, y, o in ((a, b, op), (b, a, flip.get(op, op))):
+            if isinstance(x, tuple) and x[0] == "len" and isinstance(y, tuple) and y[0] == "load" and x[1][0] == "H" and y[1][0] == "H":
+                Xm, cl = x[1], y[1]
+                if not (Xm[2] and Xm[2][-1] == "map" and cl[2] and Xm[1] == cl[1]):
+                    continue
+                if cl[2][-1] == "cap" and cl[2][:-1] == Xm[2][:-1]:
+                    return Xm, o, x[2]
+                al = self.cap_alias.get(cl[2][-1])
+                if al is not None and cl[2][:-1] + (al,) == Xm[2][:-1]:
+                    return Xm, o, x[2]
+        return None
+
+    def note_room_fact(self, interp, st, c, truth):
+        if not (isinstance(c, tuple) and c[0] == "bin" and c[1] in ("Lt", "Le", "Gt", "Ge", "Eq", "Ne")):
+            return
+        r = self._len_vs_cap(c[2], c[3], c[1])
+        if r is None:
+            return
+        Xm, o, ver = r
+        if ver != st.lenver.get(Xm, 0):
+            return
+        neg = {"Eq": "Ne", "Ne": "Eq", "Lt": "Ge", "Ge": "Lt", "Gt": "Le", "Le": "Gt"}
+        if not truth:
+            o = neg[o]
+        if o in ("Lt", "Ne"):      # len < cap, or len != cap with len <= cap (I_list)
+            st.roomx[Xm] = True
 
     def decide_cond(self, interp, st, c):
         """decide an opaque boolean condition from facts already on the path (sound pruning only)"""
@@ -910,6 +946,11 @@ class Models:
                         return 1 if op == "Eq" else 0
                     if not is_eq and const_int(other) == ky:
                         return 0 if op == "Eq" else 1
+        # cap != 0 for an inner list of a composite cache (constructors validate, nothing resizes them: C03.R2b)
+        if op in ("Eq", "Ne"):
+            for x, y in ((a, b), (b, a)):
+                if const_int(y) == 0 and isinstance(x, tuple) and x[0] == "load" and x[1][0] == "H" and len(x[1][2]) >= 2 and x[1][2][-1] == "cap":
+                    return 0 if op == "Eq" else 1
         # room: len(X) vs cap(X) for a resident-bound list with slack >= 1
         for x, y, o in ((a, b, op), (b, a, {"Lt": "Gt", "Gt": "Lt", "Le": "Ge", "Ge": "Le"}.get(op, op))):
             if isinstance(x, tuple) and x[0] == "len" and isinstance(y, tuple) and y[0] == "load":
@@ -921,6 +962,12 @@ class Models:
                     root = (Xm[1], Xm[2][:-2])
                     if fld in self.resident_bound_fields and st.slack.get(root, 0) >= 1 and x[2] == st.lenver.get(Xm, 0):
                         return {"Ge": 0, "Eq": 0, "Gt": 0, "Lt": 1, "Ne": 1, "Le": 1}.get(o)
+        # an entry was removed from this very list / len < cap was established, and nothing was inserted since (len <= cap is I_list)
+        r = self._len_vs_cap(a, b, op) if op in ("Lt", "Le", "Gt", "Ge", "Eq", "Ne") else None
+        if r is not None:
+            Xm, o, ver = r
+            if st.roomx.get(Xm) and ver == st.lenver.get(Xm, 0):
+                return {"Ge": 0, "Eq": 0, "Gt": 0, "Lt": 1, "Ne": 1, "Le": 1}.get(o)
         return None
 
     @staticmethod
@@ -1344,6 +1391,28 @@ class Models:
             break
         return v
 
+    def _canon_key(self, interp, st, ks):
+        """a by-value key held in a local is identified by its (opaque) value, so that it stays the same key when it is
+        moved into a callee frame; pointers into nodes and &Q parameters identify themselves"""
+        if isinstance(ks, tuple) and ks[0] == "ref" and ks[1][0] in ("L", "T"):
+            v = interp.read(st, ks[1])
+            if isinstance(v, tuple) and v[0] == "moved":
+                v = v[1]
+            if isinstance(v, tuple) and v[0] in ("param", "call", "proj", "load", "iter_item"):
+                return ("kv", v)
+        return ks
+
+    @staticmethod
+    def _home_list(n):
+        """the list (location of its map) a node value is known to live in, from its provenance"""
+        if isinstance(n, tuple) and n[0] == "node":
+            return n[2]
+        if isinstance(n, tuple) and n[0] == "load" and n[1][0] == "H" and n[1][2] in (("prev",), ("next",)):
+            s_ = n[1][1]
+            if isinstance(s_, tuple) and s_[0] == "load" and s_[1][0] == "H" and s_[1][2][-1:] in (("tail",), ("head",)):
+                return ("H", s_[1][1], s_[1][2][:-1] + ("map",))
+        return None
+
     def _node_of_key(self, keysrc):
         """if the key pointer points at the `key` field of a node, that node"""
         if isinstance(keysrc, tuple) and keysrc[0] == "ref":
@@ -1398,13 +1467,24 @@ class Models:
         if not self._is_node_map(info):
             return self._generic_lookup(interp, st, fr, info, kind)
         X = self._hm_recv(interp, st, info)
-        ks = self._keysrc(interp, st, info["args"][1])
+        ks = self._canon_key(interp, st, self._keysrc(interp, st, info["args"][1]))
         own = self._node_of_key(ks)
         cid = st.fresh()
         known = st.member.get((X, ks))
         if known is None and own is not None:
             # pruning rule P1 applied to a node's own key: a list member's key is in that list's index (I_list)
             known = True
+        if known is None and isinstance(ks, tuple) and ks[0] == "kv":
+            # pruning rule P5 (one partition): the key just moved out of an entry of list Y is not in a sibling list X
+            kv = ks[1]
+            n = None
+            if kv[0] == "load" and kv[1][0] == "H" and kv[1][2] == ("key",):
+                n = kv[1][1]
+            elif kv[0] == "proj" and kv[2] == ("key",) and isinstance(kv[1], tuple) and kv[1][0] == "load" and kv[1][1][0] == "H" and kv[1][1][2] == ():
+                n = kv[1][1][1]
+            home = self._home_list(n) if n is not None else None
+            if home is not None and home != X and home[0] == "H" and X[0] == "H" and home[1] == X[1]:
+                known = False
         outs = []
         for present in (True, False):
             if known is not None and known != present:
@@ -1425,6 +1505,7 @@ class Models:
                     # a removal from X invalidates what we knew about other keys being present? no: other keys stay.
                     s2.lenver[X] = s2.lenver.get(X, 0) + 1
                     s2.lencount[X] = s2.lencount.get(X, 0) - 1
+                    s2.roomx[X] = True
                     self._slack(s2, X, +1)
                     outs.append((s2, some(node)))
                 else:
@@ -1488,6 +1569,7 @@ class Models:
         st.member[(X, ks)] = True
         st.lenver[X] = st.lenver.get(X, 0) + 1
         st.lencount[X] = st.lencount.get(X, 0) + 1
+        st.roomx.pop(X, None)
         self._slack(st, X, -1)
         return [(st, ("call", cid, info["q"]))]
 
